@@ -81,7 +81,7 @@ use std::cell::Cell;
 use std::cmp::{max, min};
 use std::collections::{BTreeSet, HashMap};
 use std::rc::Rc;
-use unicode_width::UnicodeWidthStr;
+use render::text_renderer::str_width;
 
 use std::io;
 use std::io::Write;
@@ -789,7 +789,7 @@ impl RenderNode {
                     Ul(_) => decorator.unordered_item_prefix(),
                     _ => unreachable!(),
                 };
-                let prefix_width = UnicodeWidthStr::width(prefix.as_str());
+                let prefix_width = str_width(prefix.as_str());
                 let mut size = v
                     .iter()
                     .map(recurse)
@@ -817,7 +817,7 @@ impl RenderNode {
                 result
             }
             Header(level, ref v) => {
-                let prefix_size = UnicodeWidthStr::width(decorator.header_prefix(level).as_str());
+                let prefix_size = str_width(decorator.header_prefix(level).as_str());
                 let mut size = v
                     .iter()
                     .map(recurse)
@@ -2076,7 +2076,7 @@ fn do_render_node<T: Write, D: TextDecorator>(
         Header(level, children) => {
             let prefix = renderer.header_prefix(level);
             let prefix_size = size_estimate.prefix_size;
-            debug_assert!(UnicodeWidthStr::width(prefix.as_str()) == prefix_size);
+            debug_assert!(str_width(prefix.as_str()) == prefix_size);
             let min_width = size_estimate.min_width;
             let inner_width = min_width.saturating_sub(prefix_size);
             let sub_builder =
@@ -2102,7 +2102,7 @@ fn do_render_node<T: Write, D: TextDecorator>(
         }
         BlockQuote(children) => {
             let prefix = renderer.quote_prefix();
-            let prefix_len = UnicodeWidthStr::width(prefix.as_str());
+            let prefix_len = str_width(prefix.as_str());
             debug_assert!(size_estimate.prefix_size == prefix_len);
             let inner_width = size_estimate.min_width - prefix_len;
             let sub_builder =
@@ -2120,7 +2120,7 @@ fn do_render_node<T: Write, D: TextDecorator>(
         }
         Ul(items) => {
             let prefix = renderer.unordered_item_prefix();
-            let prefix_len = UnicodeWidthStr::width(prefix.as_str());
+            let prefix_len = str_width(prefix.as_str());
 
             TreeMapResult::PendingChildren {
                 children: items,
@@ -2155,8 +2155,8 @@ fn do_render_node<T: Write, D: TextDecorator>(
             let min_number = start;
             // Assumption: num_items can't overflow isize.
             let max_number = start.saturating_add(num_items as i64).saturating_sub(1);
-            let prefix_width_min = renderer.ordered_item_prefix(min_number).width();
-            let prefix_width_max = renderer.ordered_item_prefix(max_number).width();
+            let prefix_width_min = str_width(&renderer.ordered_item_prefix(min_number));
+            let prefix_width_max = str_width(&renderer.ordered_item_prefix(max_number));
             let prefix_width = max(prefix_width_min, prefix_width_max);
             let prefixn = format!("{: <width$}", "", width = prefix_width);
             let i: Cell<_> = Cell::new(start);
@@ -2178,7 +2178,7 @@ fn do_render_node<T: Write, D: TextDecorator>(
                     let sub_builder = renderer.pop();
                     let prefix1 = renderer.ordered_item_prefix(i.get());
                     // Pad by display width (format! pads by character count).
-                    let padding = prefix_width.saturating_sub(prefix1.width());
+                    let padding = prefix_width.saturating_sub(str_width(&prefix1));
                     let prefix1 = prefix1 + &" ".repeat(padding);
 
                     renderer.append_subrender(
@@ -2943,7 +2943,7 @@ fn calc_ol_prefix_size<D: TextDecorator>(start: i64, num_items: usize, decorator
     let max_number = start.saturating_add(num_items as i64).saturating_sub(1);
 
     // This assumes that the decorator gives the same width as default.
-    let prefix_width_min = decorator.ordered_item_prefix(min_number).width();
-    let prefix_width_max = decorator.ordered_item_prefix(max_number).width();
+    let prefix_width_min = str_width(&decorator.ordered_item_prefix(min_number));
+    let prefix_width_max = str_width(&decorator.ordered_item_prefix(max_number));
     max(prefix_width_min, prefix_width_max)
 }
